@@ -1,6 +1,7 @@
 #!/bin/sh
 # usage: tools/seedtest.sh <patch.diff> <Cxx> [<Cyy> ...]   apply a seeded change to /repo, run the checks, undo it
 P="$1"; shift
+rm -rf /tmp/evidence.bak.$$; cp -r /verif/evidence /tmp/evidence.bak.$$
 git -C /repo apply "$P" || { echo "patch does not apply"; exit 2; }
 for id in "$@"; do
   echo "=== $id"
@@ -8,4 +9,5 @@ for id in "$@"; do
   echo "exit=$?"
 done
 git -C /repo checkout -- .
+rm -rf /verif/evidence; mv /tmp/evidence.bak.$$ /verif/evidence
 git -C /repo status --short | head -3
